@@ -449,6 +449,25 @@ fn main() {
         run(&mut ctx, "f-two-clusters", &s, u, &std_b);
         run(&mut ctx, "f-two-clusters", &s, u + 12345, &[Builder::Push]);
     }
+    // (g) clustered sequences: a run of empty high-bit buckets longer than one or two 64-bit words
+    // of the upper-bits array (needs about as many elements as empty buckets)
+    let gn: &[usize] = if t { &[66, 100, 130, 131, 200, 260, 520] } else { &[66, 130, 200, 260] };
+    for &n in gn {
+        for u in [1usize << 20, 1_000_000, usize::MAX] {
+            for (nm, head) in [("head-2", 2usize), ("head-n-2", n - 2), ("head-half", n / 2), ("head-1", 1)] {
+                let tail = n - head;
+                let mut s: Vec<usize> = (0..head).map(|i| i * 2).collect();
+                s.extend((0..tail).map(|i| u - (tail - 1 - i) * 3));
+                run(&mut ctx, &format!("g-clustered-{nm}"), &s, u, &[Builder::Push, Builder::ConcurrentReverse]);
+            }
+            // three clusters
+            let third = n / 3;
+            let mut s: Vec<usize> = (0..third).collect();
+            s.extend((0..third).map(|i| u / 2 + i));
+            s.extend((0..n - 2 * third).map(|i| u - (n - 2 * third - 1 - i)));
+            run(&mut ctx, "g-clustered-three", &s, u, &[Builder::Push]);
+        }
+    }
     if prop == "C03" {
         invalid_pushes(&mut ctx);
     }
